@@ -179,6 +179,7 @@ class Session(object):
         self.loss = {}
         self.lossdef = {}
         self.loss_x0 = {}      # a loss object keeps the initial values it was last given (costIV & co.)
+        self.loss_theta = {}   # ... and the parameters it was last given (what a call without argument uses)
         self.interleaves = 0
 
     def close(self):
@@ -478,13 +479,19 @@ def loss_call(sess, op, step, out, stats, log):
     d = sess.lossdef[op["id"]]
     what = op["what"]
     free = list(op["free"])
+    stored = op.get("use_stored") and what in ("cost", "residual") and d["id"] in sess.loss_theta
+    if stored:
+        # the call is made without an argument: "at the parameters this object was last given" - whatever
+        # other clients did to the shared model in the meantime
+        free = list(sess.loss_theta[d["id"]])
+        stats["stored_theta_calls"] = stats.get("stored_theta_calls", 0) + 1
     try:
         if what == "cost":
-            got = obj.cost(np.array(free, float) if op.get("as_array", True) else list(free))
+            got = obj.cost() if stored else obj.cost(np.array(free, float) if op.get("as_array", True) else list(free))
         elif what == "costIV":
             got = obj.costIV(np.array(free, float))
         elif what == "residual":
-            got = obj.residual(np.array(free, float))
+            got = obj.residual() if stored else obj.residual(np.array(free, float))
         else:
             raise core.HarnessError(what)
     except core.HarnessError:
@@ -497,6 +504,7 @@ def loss_call(sess, op, step, out, stats, log):
         out.append(core.crash_failure("C06", e, step, "%s.%s" % (d["cls"], what)))
         return
     stats["cost_calls"] = stats.get("cost_calls", 0) + 1
+    _remember_theta(sess, d, free)
     want, yhat = ref_cost(sess, d, free)
     # the loss object wrote its parameters into the shared model (and keeps the initial values)
     _sync_model_theta(sess, d, free)
@@ -521,7 +529,7 @@ def loss_call(sess, op, step, out, stats, log):
         out.append(fail("C06.%s" % what, step, "%s %s(%s) = %r, the stated loss of the true trajectory is %r (|diff| %.3g > tol %.3g); states %s" % (
             d["cls"], what, free, got, want, abs(got - want), tol, d["states"])))
     same_x0 = [float(v) for v in sess.loss_x0.get(d["id"], sess.x0)] == [float(v) for v in sess.x0]
-    if d["cls"] == "SquareLoss" and op.get("at_truth") and d.get("noise_free") and same_x0 and what == "cost":
+    if d["cls"] == "SquareLoss" and op.get("at_truth") and not stored and d.get("noise_free") and same_x0 and what == "cost":
         sy = float(np.sum(np.array(d["y"], float) ** 2))
         if not (got < 1e-10 * max(sy, 1e-300) + 1e-14):
             out.append(fail("C06.zero", step, "square-loss cost at the data-generating parameters is %r (sum y^2 = %r)" % (got, sy)))
@@ -545,6 +553,13 @@ def _bcast(v, shape):
     if a.ndim == 1 and len(shape) == 2 and a.shape[0] == shape[0] and shape[1] != a.shape[0]:
         a = a.reshape(-1, 1)
     return np.broadcast_to(a, shape)
+
+
+def _remember_theta(sess, d, free):
+    """The parameter part of the last free vector given explicitly to this loss object (what a later call
+    without an argument refers to)."""
+    k = len(d["target_param"]) if d.get("target_param") is not None else sess.ref.p
+    sess.loss_theta[d["id"]] = [float(v) for v in list(free)[:k]]
 
 
 def _sync_model_theta(sess, d, free):
@@ -582,17 +597,21 @@ def grad_call(sess, op, step, out, stats, log):
     which = op["which"]
     free = np.array(op["free"], float)
     method = op.get("method")
-    label = "%s.%s(method=%s) states=%s target_param=%s target_state=%s" % (
-        d["cls"], which, method, d["states"], d.get("target_param"), d.get("target_state"))
+    stored = bool(op.get("use_stored")) and which in ("sensitivity", "gradient", "jac") and d["id"] in sess.loss_theta
+    if stored:
+        free = np.array(sess.loss_theta[d["id"]], float)
+        stats["stored_theta_calls"] = stats.get("stored_theta_calls", 0) + 1
+    label = "%s.%s(%smethod=%s) states=%s target_param=%s target_state=%s" % (
+        d["cls"], which, "theta=None, " if stored else "", method, d["states"], d.get("target_param"), d.get("target_state"))
     try:
         if which == "sensitivity":
-            got = obj.sensitivity(free.copy(), method=method)
+            got = obj.sensitivity(None if stored else free.copy(), method=method)
         elif which == "gradient":
-            got = obj.gradient(free.copy())
+            got = obj.gradient(None if stored else free.copy())
         elif which == "sensitivityIV":
             got = obj.sensitivityIV(free.copy(), method=method)
         elif which == "jac":
-            got = obj.jac(free.copy(), method=method)
+            got = obj.jac(None if stored else free.copy(), method=method)
         else:
             raise core.HarnessError(which)
     except core.HarnessError:
@@ -637,6 +656,17 @@ def grad_call(sess, op, step, out, stats, log):
         return
     finally:
         _sync_model_theta(sess, d, list(free))
+        try:
+            # leave the object in a defined state: the last parameters it was given are `free`
+            if which == "sensitivityIV":
+                obj.costIV(np.array(free, float))
+            else:
+                obj.cost(np.array(free, float))
+            _remember_theta(sess, d, list(free))
+        except core.RunTimeout:
+            raise
+        except Exception:
+            sess.loss_theta.pop(d["id"], None)
     noise = 0.0
     if which != "jac":
         try:
@@ -1222,6 +1252,10 @@ def gen_loss_case(S, tier, prop, kinds, classes=None, allow_targets=True, nloss=
                                       "method": srng.choice([None, None, "lsoda", "vode", "dopri5"]) if kind != "gradient" else None})
                     else:
                         calls.append({"op": "curv", "id": d["id"], "which": kind, "free": free})
+                    if kind in ("cost", "residual", "sensitivity", "gradient", "jac") and srng.random() < 0.3:
+                        # called without an argument: at the parameters the object was last given (used only
+                        # when an earlier call gave it some; otherwise the explicit vector is passed)
+                        calls[-1]["use_stored"] = True
             srng.shuffle(calls)
             sched = []
             for c in calls:
